@@ -61,6 +61,10 @@ class Policy(object):
         if self.name == 'results_first':   # deliver action results back-to-back before anything else
             res = [e for e in en if e[0] == 'msg' and w.msgs[e[1]].method in ('on_action_complete', 'run_action')]
             return rnd.choice(res or en)
+        if self.name == 'time_races':      # let the clock run ahead of pending work now and then
+            if rnd.random() < 0.2 and w.next_due() is not None:
+                return ('tick',)
+            return rnd.choice(en)
         if self.name == 'fifo':
             return en[0]
         if self.name == 'lifo':
@@ -94,6 +98,7 @@ def run_program(prog, scheduler='default', policy='random', seed=0, ops=None, du
                 ev['arg'] = ev['args'][1] if len(ev['args']) > 1 else ''
             if ev.get('kind') == 'op' and ev.get('op') == 'rerun' and ev.get('args'):
                 ev['target_sid'] = ids['tk_rev'].get(ev['args'][0], '')
+                ev['arg'] = 'skip' if (len(ev['args']) > 2 and ev['args'][2]) else ('reset' if ev['args'][1] else 'noreset')
             ev.pop('args', None)
             ev.pop('result', None)
             for a in obs['ax']:
